@@ -12,11 +12,26 @@ using namespace Oomd;
 static const char kAlpha[] = "0159.+-%kKmgtenaifx ";
 extern "C" void harness(void) {
   std::string s;
+#ifdef H_TPL
+  // template variants: position i ranges over the character class H_TPL[i] (D digit, U unit letter, P '.', A whole alphabet):
+  // long strings around the 2^63 boundary ("8388608t") that the whole-alphabet variants cannot reach
+  static const char kTpl[] = H_TPL; static const char kDig[] = "0123456789"; static const char kUnit[] = "kmgtKMGT";
+  for (int i = 0; i < H_LEN; i++) {
+    char ch;
+    if (kTpl[i] == 'D') ch = kDig[vf_nd(10 + i, 0, 9)];
+    else if (kTpl[i] == 'U') ch = kUnit[vf_nd(10 + i, 0, 7)];
+    else if (kTpl[i] == 'A') ch = kAlpha[vf_nd(10 + i, 0, (int)sizeof(kAlpha) - 2)];
+    else ch = kTpl[i];
+    s.push_back(ch);
+    vf_cfg_set(0, i, (unsigned char)ch);
+  }
+#else
   for (int i = 0; i < H_LEN; i++) {
     int c = (int)vf_nd(10 + i, 0, (int)sizeof(kAlpha) - 2);
     s.push_back(kAlpha[c]);
     vf_cfg_set(0, i, (unsigned char)kAlpha[c]);
   }
+#endif
   int64_t out = 0x5a5a5a5a;
   int rc;
   if (H_MODE == 0) rc = Util::parseSize(s, &out);
